@@ -2,10 +2,14 @@
 import re
 
 TRUSTED_BASE = [
-    'Verus 0.2026.09.13 + Z3 (verifier and solver themselves)',
-    'rustc -Zunpretty=expanded prints the code that is compiled; extractor rewrites R1-R7 (DESIGN 2.1)',
-    'A-amount: M0 axioms on the abstract amount operations (contracts/shim_m0.vrs)',
-    'A-derive: derived PartialEq/Eq/Copy/Clone of generated enums and structs are structural',
+    'Verus 0.2026.09.13 + Z3, Kani 0.68 + CBMC 6.11 (verifiers and solvers themselves)',
+    'rustc -Zunpretty=expanded prints the code that is compiled; extractor rewrites R1-R7 (DESIGN 2.1); literal tokens parsed to exact rationals by the generator',
+    'A-amount: M0 axioms on the abstract amount operations (contracts/shim_m0.vrs: a_eq symmetric, a_cmp antisymmetric and consistent with a_eq, * and + commutative, x/1 = x*1 = x); M1-f64: standard model of binary64 under explicit side conditions (contracts/m1_f64.vrs); machine arithmetic is not treated as mathematical',
+    'A-derive: derived PartialEq/Eq/Copy/Clone of generated enums and structs are structural (external_body eq on unit enums)',
+    'A-std: core/alloc code (iterators, String, str comparison, PartialOrd-derived operators) is executed as compiled MIR by Kani and specified by vstd for Verus; not verified here',
+    'A-fpdec: fpdec::Decimal operators (dependency) are not verified; decimal configuration enters Verus through the abstract amount type only',
+    'external_body / axiom items: amount shim, unit_from_scale and _fit_select (contracts K-ufs/K-fit proved by Kani per type), symbol(), unit enum eq, literal constants; counts per unit under by_backend.verus.unproved_constructs_scan',
+    'independent tables spec/units.toml, spec/si_prefixes.toml, spec/temperature.toml transcribe the published definitions',
 ]
 
 TYPES_Q = ['types_q_f64_ref', 'types_q_f64_noref', 'types_q_dec_ref', 'types_q_dec_noref', 'types_astro_f64_ref']
